@@ -65,6 +65,15 @@ type Shape struct {
 	// top-level declaration sequence over under a fresh root (documented top-level repetition) instead of repeating
 	// inside one root.
 	EDIRootRepeat bool `json:"edi_root_repeat,omitempty"`
+	// JSONKeyed (json; set by C17 only, never drawn): the records are not elements of an array but properties of one object,
+	// each under its own name k<position> ("object keyed by id"); the target xpath (/items/* or /*) is the same.
+	JSONKeyed bool `json:"json_keyed,omitempty"`
+	// PosFilter (xml; set by C17 only, never drawn): the FINAL_OUTPUT xpath ends in the positional predicate
+	// [position() <= 1000000] (true for every candidate) instead of the value filter.
+	PosFilter bool `json:"pos_filter,omitempty"`
+	// XMLAttr (xml, pass-through transform, >= 2 columns, last column not the int column): the LAST column is not written as
+	// an element but as attribute a of the (text-only) element c0, <c0 a="...">text</c0>, and read with the xpath c0/@a.
+	XMLAttr bool `json:"xml_attr,omitempty"`
 	// XMLDecl (xml): when non-empty the document starts with an XML declaration carrying this encoding label (the xml
 	// decoder applies the label on top of whatever parser_settings.encoding already did)
 	XMLDecl string `json:"xml_decl,omitempty"`
@@ -107,6 +116,11 @@ const BoomToken = "BOOM"
 func (s Shape) HasSubs() bool { return s.NSub > 0 }
 
 func colName(i int) string { return fmt.Sprintf("c%d", i) }
+
+// attrCol says whether column i is the one written as an attribute of c0 (XMLAttr).
+func (s Shape) attrCol(i int) bool {
+	return s.Format == "xml" && s.XMLAttr && s.Xform == 0 && s.NCols >= 2 && i == s.NCols-1
+}
 func subName(i int) string { return fmt.Sprintf("s%d", i) }
 
 // ---------------------------------------------------------------------------------------------
@@ -223,6 +237,9 @@ func DrawShape(t *rapid.T, o ShapeOpts) Shape {
 	}
 	if o.AllowReplaceQuotes && (s.Format == "csv" || s.Format == "csv2") {
 		s.ReplaceQuotes = rapid.IntRange(0, 3).Draw(t, "replaceQuotes") == 0
+	}
+	if s.Format == "xml" && s.Xform == 0 && s.NCols >= 2 && s.IntCol != s.NCols-1 {
+		s.XMLAttr = rapid.IntRange(0, 3).Draw(t, "xmlAttr") == 0
 	}
 	return s
 }
@@ -424,6 +441,9 @@ func (s Shape) finalOutputXPath() string {
 			}
 			return base + "/grp/rec"
 		}
+		if s.PosFilter {
+			return base + "/rec[position() <= 1000000]"
+		}
 		return base + "/rec" + filter
 	default:
 		if filter == "" {
@@ -437,6 +457,9 @@ func (s Shape) transformDecls() obj {
 	fields := obj{}
 	for i := 0; i < s.NCols; i++ {
 		f := obj{"xpath": colName(i)}
+		if s.attrCol(i) {
+			f = obj{"xpath": "c0/@a"}
+		}
 		if i == s.IntCol {
 			f["type"] = "int"
 		}
@@ -484,6 +507,11 @@ func (s Shape) transformDecls() obj {
 		fields["tag"] = obj{"external": "tag"}
 		fields["viaext"] = obj{"xpath_dynamic": obj{"external": "xp"}}
 		fields["viaext2"] = obj{"object": obj{"v": obj{"xpath_dynamic": obj{"external": "xp"}, "no_trim": true}}}
+		// typed externals (callers must pass "num", an integer text, and "flag", a boolean text), one of them as a javascript argument
+		fields["num"] = obj{"external": "num", "type": "int"}
+		fields["flag"] = obj{"external": "flag", "type": "boolean"}
+		fields["numjs"] = obj{"custom_func": obj{"name": "javascript", "args": []interface{}{
+			obj{"const": "n + 1"}, obj{"const": "n"}, obj{"external": "num", "type": "int"}}}}
 	case 3:
 		// cache-sensitive flavour: textually identical declarations at different positions, xpath_dynamic,
 		// javascript_with_context on the record and on its parent (which changes between records)
@@ -538,6 +566,8 @@ func (s Shape) transformDecls() obj {
 			obj{"const": "x + ' ' + x.length"}, obj{"const": "x"}, obj{"xpath": "c0", "no_trim": true}}}}
 		// an array over a union: document order, whatever IDs the (pooled) nodes carry
 		fields["uni"] = obj{"array": []interface{}{obj{"xpath": "c0 | " + last + " | c0"}}}
+		// copy of a node that outlives the record (its content changes from record to record)
+		fields["anccopy"] = obj{"xpath": "..", "custom_func": obj{"name": "copy"}}
 		fields["ie_a"] = twin(true)
 		fields["ie_b"] = twin(false)
 		fields["pjs"] = obj{"xpath": "..", "custom_func": obj{"name": "javascript_with_context", "args": []interface{}{
@@ -846,6 +876,12 @@ func xmlCharData(v string, mode int) string {
 	}
 }
 
+// shapeEscapeAttr escapes a value for a double-quoted attribute (white space as character references: attribute value
+// normalisation would turn tabs and line breaks into blanks).
+func shapeEscapeAttr(v string) string {
+	return strings.NewReplacer("\t", "&#9;", "\n", "&#10;").Replace(xmlEscape(v))
+}
+
 func xmlEscape(v string) string {
 	var b strings.Builder
 	for _, r := range v {
@@ -1017,6 +1053,10 @@ func (s Shape) RenderParts(recs []Rec) (pro string, parts []string, epi string) 
 		} else {
 			pro, epi = "[", "]"+eol
 		}
+		if s.JSONKeyed {
+			pro = strings.TrimSuffix(pro, "[") + "{"
+			epi = "}" + strings.TrimPrefix(epi, "]")
+		}
 		for i, r := range recs {
 			m := obj{}
 			for j, v := range r.Vals {
@@ -1042,6 +1082,9 @@ func (s Shape) RenderParts(recs []Rec) (pro string, parts []string, epi string) 
 			enc.SetEscapeHTML(false)
 			_ = enc.Encode(m)
 			p := strings.TrimRight(buf.String(), "\n")
+			if s.JSONKeyed {
+				p = fmt.Sprintf(`"k%07d":`, i) + p
+			}
 			if i < len(recs)-1 {
 				p += ","
 			}
@@ -1094,9 +1137,16 @@ func (s Shape) RenderParts(recs []Rec) (pro string, parts []string, epi string) 
 				b.WriteString("<rec" + recNS + ">")
 			}
 			for j, v := range r.Vals {
-				fmt.Fprintf(&b, "<%s>%s</%s>", colName(j), xmlEscape(v), colName(j))
+				if s.attrCol(j) {
+					continue
+				}
+				open := "<" + colName(j) + ">"
+				if j == 0 && s.attrCol(len(r.Vals)-1) {
+					open = "<" + colName(j) + ` a="` + shapeEscapeAttr(r.Vals[len(r.Vals)-1]) + `">`
+				}
+				fmt.Fprintf(&b, "%s%s</%s>", open, xmlEscape(v), colName(j))
 				if j == 0 && r.Dup {
-					fmt.Fprintf(&b, "<%s>%s</%s>", colName(j), xmlEscape(v), colName(j))
+					fmt.Fprintf(&b, "%s%s</%s>", open, xmlEscape(v), colName(j))
 				}
 			}
 			for _, sub := range r.Subs {
